@@ -54,10 +54,13 @@ Dom(f, o) == ~f.grey /\ ~Crashed(o)          \* the scenarios the other properti
 J01(f, o) == (Dom(f, o) /\ SpecOk(f)) => (o.ok /\ ValuesEq(f, o) /\ Calls(o.events) = Calls(f.events) /\ o.untouched)
 
 \* --- C03: conservation of unconsumed arguments (successful parses)
-J03(f, o) == (Dom(f, o) /\ SpecOk(f)) =>
+J03(f, o) == /\ (Dom(f, o) /\ SpecOk(f)) =>
                 (/\ o.ok /\ o.retargs = f.retargs /\ PosEq(f, o)
                  /\ o.argvIntact                      \* the caller's vector is read, never written: no token of it is altered either
                  /\ \A i \in 1..Len(Execs(o.events)) : Execs(o.events)[i].args = f.retargs)
+             \* a parse that reports success accounts for every token: a vector the specification rejects (a token that can be
+             \* neither bound nor returned) must not come back as a success with that token dropped
+             /\ (Dom(f, o) /\ o.ok) => SpecOk(f)
 
 \* --- C06: required options and argument counts
 J06(f, o) == Dom(f, o) =>
@@ -91,7 +94,9 @@ J09(f, o) == Dom(f, o) =>
                  /\ o.errType = "foreign:exec" => Execs(f.events) # <<>>)
 
 \* --- C10: positional binding
-J10(f, o) == (Dom(f, o) /\ SpecOk(f)) => (o.ok /\ PosEq(f, o) /\ o.retargs = f.retargs)
+J10(f, o) == /\ (Dom(f, o) /\ SpecOk(f)) => (o.ok /\ PosEq(f, o) /\ o.retargs = f.retargs)
+             \* a token that cannot be bound to the positional it falls to fails the parse: success is not an answer
+             /\ (Dom(f, o) /\ o.ok) => SpecOk(f)
 
 \* --- C11: values are converted exactly or rejected with the documented error naming the option (and listing the choices)
 ConvErrs == {"ErrMarshal", "ErrInvalidChoice"}
